@@ -93,9 +93,14 @@ P_DumpAtTimes(l, I, e) ==
 \* force reaches tf are not constrained: landing on tf overwrites the
 \* solver's only copy of the nominal step (the statement speaks of steps
 \* shortened to land on an *output time*).
+\* A call of solve() that continues a run which had reached its (then) final
+\* time is not constrained either (I.norec): the statement does not say what
+\* the nominal step of such a call is, and the solver continues with the
+\* clipped last step.
 P_RecordedDt(l, I, e) ==
     LET D == Dumps(l)
-    IN \A i \in DOMAIN D : (D[i].t + D[i].lim < I.tf - e) => Near(D[i].dt, D[i].nom, e)
+    IN I.norec \/
+       \A i \in DOMAIN D : (D[i].t + D[i].lim < I.tf - e) => Near(D[i].dt, D[i].nom, e)
 
 \* pre-step callback, step, post-step callback: once each per step, in order
 P_Callbacks(l, I, e) ==
